@@ -259,7 +259,8 @@ def _straight_line_expr(body: list) -> Optional[ast.expr]:
                     return None          # defined on one path only
                 env2[nm] = va if ast.dump(va) == ast.dump(vb) else ast.IfExp(test=copy.deepcopy(test), body=va, orelse=vb)
             return ev(rest, env2)
-        if isinstance(st, ast.If) and _pure_expr(st.test):
+        if isinstance(st, ast.If) and (_pure_expr(st.test) or not _has(st.test, (ast.NamedExpr, ast.Yield, ast.YieldFrom, ast.Await, ast.Lambda))):
+            # the test is evaluated once, where it stood, and one arm after it (the locals read are pure by construction)
             a = ev(list(st.body) + rest, env)
             b = ev(list(st.orelse) + rest, env)
             if a is None or b is None:
